@@ -1,17 +1,80 @@
-(* C02deep — the passes compose: one round of the per-function pipeline (restricted to the modelled passes). *)
+(* C02deep — the passes compose: well-formedness (and the absence of a Break outside of a loop) is preserved
+   by every modelled pass, `refines_add` is transitive, so the per-function pipeline of lib.rs (restricted to
+   the modelled passes) preserves behaviour given these two facts of its INPUT only. *)
 From Coq Require Import ZArith NArith List Bool.
 Import ListNotations.
 From SV Require Import Common.Int32 C02deep.Syntax C02deep.Sem C02deep.Passes C02deep.ProofsSem C02deep.ProofsDce
-  C02deep.ProofsCcp C02deep.ProofsCcpFull C02deep.ProofsLvn.
+  C02deep.ProofsCcp C02deep.ProofsCcpFull C02deep.ProofsLvn C02deep.ProofsWf C02deep.ProofsWfLvn.
 Open Scope Z_scope.
 
 (* one round of the per-function pipeline with value numbering on *)
 Lemma round_preserves w f f1 fl :
-  wf_func f = true -> no_dead_final_operands f -> ccp f = Some (f1, fl) -> wf_func f1 = true -> wf_func (lvn f1) = true ->
-  refines_add w (dce (lvn f1)) f.
+  wf_func f = true -> no_break_l (f_body f) = true -> no_dead_final_operands f -> ccp f = Some (f1, fl) ->
+  refines_add w (dce (lvn f1)) f /\ wf_func (dce (lvn f1)) = true /\ no_break_l (f_body (dce (lvn f1))) = true.
 Proof.
-  intros H1 H2 H3 H4 H5.
-  apply (refines_add_trans w f f1); [exact (ccp_preserves_add_named w f f1 fl H1 H2 H3)|].
-  apply (refines_add_trans w f1 (lvn f1)); [exact (lvn_preserves_add w f1 H4)|].
-  intros args fuel v tr Hs. exact (dce_preserves_mode Add w (lvn f1) args fuel v tr H5 Hs).
+  intros H1 Hn H2 H3.
+  pose proof (ccp_wf_named f f1 fl H1 Hn H2 H3) as H4. pose proof (lvn_wf f1 H4) as H5.
+  split; [|split].
+  - apply (refines_add_trans w f f1); [exact (ccp_preserves_add_named w f f1 fl H1 H2 H3)|].
+    apply (refines_add_trans w f1 (lvn f1)); [exact (lvn_preserves_add w f1 H4)|].
+    intros args fuel v tr Hs. exact (dce_preserves_mode Add w (lvn f1) args fuel v tr H5 Hs).
+  - apply dce_wf. exact H5.
+  - apply dce_no_break, lvn_no_break. exact (ccp_no_break f f1 fl Hn H3).
+Qed.
+
+(* the invariant of a partial pipeline run *)
+Definition okr (w : world) (f : func) (r : option (func * fl)) : Prop :=
+  match r with
+  | Some (f', fl) => fst fl = false -> refines_add w f' f /\ wf_func f' = true /\ no_break_l (f_body f') = true
+  | None => True
+  end.
+Lemma refines_add_refl w f : refines_add w f f.
+Proof. intros args fuel v tr H. exact H. Qed.
+
+Lemma okr_ccp w f r : okr w f r -> okr w f (then_ccp r).
+Proof.
+  destruct r as [[f1 fl1]|]; cbn; [|auto]. intros H. destruct (ccp f1) as [[f2 fl2]|] eqn:E; cbn; [|exact I].
+  intros Hf. apply orb_false_elim in Hf. destruct Hf as [Hf1 Hf2]. destruct (H Hf1) as (R & W & N).
+  split; [|split].
+  - apply (refines_add_trans w f f1); [exact R|]. exact (ccp_preserves_add w f1 f2 fl2 W E Hf2).
+  - exact (ccp_wf f1 f2 fl2 W N E Hf2).
+  - exact (ccp_no_break f1 f2 fl2 N E).
+Qed.
+Lemma okr_pure w f r (p : func -> func) :
+  (forall g, wf_func g = true -> refines_add w (p g) g /\ wf_func (p g) = true) ->
+  (forall g, no_break_l (f_body g) = true -> no_break_l (f_body (p g)) = true) ->
+  okr w f r -> okr w f (then_pure p r).
+Proof.
+  intros Hp Hn. destruct r as [[f1 fl1]|]; cbn; [|auto]. intros H Hf. destruct (H Hf) as (R & W & N).
+  destruct (Hp f1 W) as [R' W']. split; [|split; auto]. apply (refines_add_trans w f f1); assumption.
+Qed.
+Lemma dce_step w g : wf_func g = true -> refines_add w (dce g) g /\ wf_func (dce g) = true.
+Proof.
+  intros W. split; [|apply dce_wf; exact W]. intros args fuel v tr Hs. exact (dce_preserves_mode Add w g args fuel v tr W Hs).
+Qed.
+Lemma lvn_step w g : wf_func g = true -> refines_add w (lvn g) g /\ wf_func (lvn g) = true.
+Proof. intros W. split; [exact (lvn_preserves_add w g W) | exact (lvn_wf g W)]. Qed.
+Lemma okr_round w f b r : okr w f r -> okr w f (one_round b r).
+Proof.
+  intros H. unfold one_round. apply okr_pure; [apply dce_step | apply dce_no_break|].
+  destruct b; [apply okr_pure; [apply lvn_step | apply lvn_no_break | apply okr_ccp; exact H]|].
+  apply okr_pure; [intros g W; split; [apply refines_add_refl | exact W] | auto | apply okr_ccp; exact H].
+Qed.
+
+(* optimize_function_for_rounds, restricted to the modelled passes, on its input only *)
+Theorem pipeline_preserves w b f f' fl :
+  wf_func f = true -> no_break_l (f_body f) = true -> pipeline b f = Some (f', fl) -> fst fl = false ->
+  refines_add w f' f /\ wf_func f' = true /\ no_break_l (f_body f') = true.
+Proof.
+  intros W N E Hf.
+  assert (H0 : okr w f (Some (f, fl0))) by (intros _; split; [apply refines_add_refl | auto]).
+  pose proof (okr_ccp w f _ (okr_pure w f _ dce (dce_step w) dce_no_break (okr_ccp w f _ (okr_round w f b _ (okr_round w f b _ H0))))) as H.
+  change (okr w f (pipeline b f)) in H. rewrite E in H. exact (H Hf).
+Qed.
+Corollary pipeline_preserves_named w b f f' fl :
+  wf_func f = true -> no_break_l (f_body f) = true -> pipeline_no_dead_final_operands b f -> pipeline b f = Some (f', fl) ->
+  refines w f' f /\ wf_func f' = true /\ no_break_l (f_body f') = true.
+Proof.
+  intros W N D E. unfold pipeline_no_dead_final_operands in D. rewrite E in D.
+  destruct (pipeline_preserves w b f f' fl W N E D) as (R & W' & N'). split; [apply refines_add_refines; exact R | auto].
 Qed.
